@@ -146,7 +146,7 @@ func (x *Ctx) queryRows(c *rosmar.Collection, stmt string, absKey func(string) s
 }
 
 // observeAux queries the target collection through SQL and through the views.
-func (sr *seqRunner) observeAux(x *Ctx, coll string, suffix string, fresh, late bool) []AuxObs {
+func (sr *seqRunner) observeAux(x *Ctx, coll string, suffix string) []AuxObs {
 	c := sr.env.colls[coll]
 	absKey := absKeyFn(suffix)
 	var out []AuxObs
@@ -159,6 +159,8 @@ func (sr *seqRunner) observeAux(x *Ctx, coll string, suffix string, fresh, late 
 	add("q-all", x.queryRows(c, `SELECT json_quote(id) AS id, json_quote(hex(body)) AS body, json_quote(hex(xattrs)) AS xattrs FROM $_keyspace WHERE id LIKE `+like+` AND id NOT LIKE '~%' ORDER BY id`, absKey))
 	add("q-v", x.queryRows(c, `SELECT json_quote(id) AS id FROM $_keyspace WHERE id LIKE `+like+` AND id NOT LIKE '~%' AND json_valid(body) AND body->>'v' = 'J1' ORDER BY id`, absKey))
 	add("q-s", x.queryRows(c, `SELECT json_quote(id) AS id FROM $_keyspace WHERE id LIKE `+like+` AND id NOT LIKE '~%' AND xattrs->>'$._s.t' = 'x1' ORDER BY id`, absKey))
+	// the documents that have no xattrs at all (a document whose last xattr was removed is one of them)
+	add("q-noxa", x.queryRows(c, `SELECT json_quote(id) AS id FROM $_keyspace WHERE id LIKE `+like+` AND id NOT LIKE '~%' AND xattrs IS NULL ORDER BY id`, absKey))
 	// a projection whose first column is NULL for documents without that xattr
 	add("q-null", x.queryRows(c, `SELECT xattrs->'$._s.t' AS s, json_quote(id) AS id FROM $_keyspace WHERE id LIKE `+like+` AND id NOT LIKE '~%' ORDER BY id`, absKey))
 	// which variant of the design document GetDDoc / GetDDocs report
@@ -200,6 +202,25 @@ func (sr *seqRunner) observeAux(x *Ctx, coll string, suffix string, fresh, late 
 	add("viewxenddesc", x.viewRows(c, "vd", "v", map[string]any{"startkey": hi, "endkey": piv, "descending": true, "inclusive_end": false}, absKey, suffix))
 	add("viewfromdesc", x.viewRows(c, "vd", "v", map[string]any{"startkey": piv, "endkey": lo, "descending": true}, absKey, suffix))
 	add("viewcount", x.viewRows(c, "vd", "cnt", map[string]any{"startkey": lo, "endkey": hi, "reduce": true}, absKey, suffix))
+	return out
+}
+
+// observePost queries, after the feeds have been flushed (the flush markers are writes to every collection, the
+// last of them to another collection than most operations address): a view that is queried after every step, one
+// that is queried only every third step (its index catches up over several writes at once), and at the end of the
+// path a freshly built one.
+func (sr *seqRunner) observePost(x *Ctx, coll string, suffix string, fresh, late bool) []AuxObs {
+	c := sr.env.colls[coll]
+	absKey := absKeyFn(suffix)
+	var out []AuxObs
+	add := func(kind string, ao AuxObs) {
+		ao.C = coll
+		ao.Kind = kind
+		out = append(out, ao)
+	}
+	lo := []any{suffix}
+	hi := []any{suffix, map[string]any{}}
+	add("viewpost", x.viewRows(c, "pd", "v", map[string]any{"startkey": lo, "endkey": hi}, absKey, suffix))
 	if late {
 		add("viewlate", x.viewRows(c, "ld", "v", map[string]any{"startkey": lo, "endkey": hi}, absKey, suffix))
 	}
